@@ -128,7 +128,20 @@ type Deep struct {
 	LO [][]OptT
 }
 
+// unsigned 64-bit values in containers (every accessor must hand out the full value)
+type UintBag struct {
+	L []uint64
+	M UintVals
+	P *uint64
+}
+type UintVals struct {
+	Keys   []string
+	Values map[string]uint64
+}
+
 const schemaText = `
+type UintVals {String:Int}
+type UintBag struct { L [Int]  M UintVals  P optional Int }
 type DeepVals {String:[Inner]}
 type OptT struct { A Int  O optional String } representation tuple
 type Deep struct { M DeepVals  LL [[Inner]]  LO [[OptT]] }
@@ -395,6 +408,40 @@ var Vocabulary = []Entry{
 			}
 			return ref.Map(ref.E("M", m), ref.E("LL", ll), ref.E("LO", lo))
 		}},
+	{Name: "UintBag", New: func() interface{} { return &UintBag{} },
+		Values: func() []interface{} {
+			mk := func(l []uint64, p *uint64, kv ...interface{}) *UintBag {
+				b := &UintBag{L: l, P: p}
+				b.M.Values = map[string]uint64{}
+				for i := 0; i+1 < len(kv); i += 2 {
+					b.M.Keys = append(b.M.Keys, kv[i].(string))
+					b.M.Values[kv[i].(string)] = kv[i+1].(uint64)
+				}
+				return b
+			}
+			big, max := uint64(1)<<63, uint64(math.MaxUint64)
+			return []interface{}{
+				mk([]uint64{}, nil),
+				mk([]uint64{0, 1, math.MaxInt64}, &big, "a", uint64(7)),
+				mk([]uint64{big}, &max, "a", big),
+				mk([]uint64{max, 0, big, big + 1}, nil, "b", max, "a", uint64(0), "c", big+5),
+			}
+		},
+		View: func(v interface{}) ref.Val {
+			x := v.(*UintBag)
+			l, m := ref.List(), ref.Map()
+			for _, u := range x.L {
+				l.L = append(l.L, ref.Uint(u))
+			}
+			for _, k := range x.M.Keys {
+				m.M = append(m.M, ref.E(k, ref.Uint(x.M.Values[k])))
+			}
+			p := ref.Absent()
+			if x.P != nil {
+				p = ref.Uint(*x.P)
+			}
+			return ref.Map(ref.E("L", l), ref.E("M", m), ref.E("P", p))
+		}},
 	{Name: "HasUnion", New: func() interface{} { return &HasUnion{} },
 		Values: func() []interface{} {
 			us := []UnionK{{Num: i64p(4)}, {Str: strp("s")}, {In: &Inner{1, "b"}}}
@@ -488,3 +535,7 @@ func deref(p interface{}) interface{} { return reflect.ValueOf(p).Elem().Interfa
 
 var _ = fmt.Sprint
 var _ = basicnode.NewInt
+
+// TypeSystem and Find expose the vocabulary to other checks (C02 encodes bound Go values).
+func TypeSystem() *schema.TypeSystem { return typeSystem }
+func Find(name string) Entry          { return find(name) }
